@@ -59,11 +59,17 @@ def _inv_nonneg(name='parser'):
 def register_progress_contracts():
     PL = loops.ProgressLoop
     # vector of parsable items: consumed = items_size - len(unparsed_bytes)
-    F.LOOPS[('ParserBinary._parse_parsable_derived_array', 0)] = PL(
+    from contracts.common_parse import derived_array_roles as roles       # locals by role (rename-robust)
+
+    class DerivedArrayProgress(PL):
+        def _havoc(self, frame, ctx=None):
+            self.variables = [roles(frame)['rest']]
+            return PL._havoc(self, frame, ctx)
+    F.LOOPS[('ParserBinary._parse_parsable_derived_array', 0)] = DerivedArrayProgress(
         ['unparsed_bytes'],
-        measure=lambda fr: ops.as_int(fr.lookup('items_size')) - ops.as_seq(fr.lookup('unparsed_bytes')).n,
-        limit=lambda fr: ops.as_int(fr.lookup('items_size')),
-        inv=lambda fr: [('unparsed_bytes is a suffix of the items', ops.as_seq(fr.lookup('unparsed_bytes')).n >= 0)])
+        measure=lambda fr: ops.as_int(fr.lookup(roles(fr)['items_size'])) - ops.as_seq(fr.lookup(roles(fr)['rest'])).n,
+        limit=lambda fr: ops.as_int(fr.lookup(roles(fr)['items_size'])),
+        inv=lambda fr: [('the rest of the input is a suffix of the items', ops.as_seq(fr.lookup(roles(fr)['rest'])).n >= 0)])
     # count-driven loops of the X.509 certificate chain host key (declared certificate / OCSP response counts)
     for k in (0, 1):
         F.LOOPS[('SshX509CertificateChain._parse', k)] = PL(['parser._parsed_length', 'certificates', 'ocsp_responses'][:2 + k],
